@@ -43,6 +43,11 @@ def main():
             extra = []
         cases.append({"input": common.jsonable(inp), "obs": common.jsonable(obs), "oracle": orc,
                       "coq": term, "coq_extra": extra, "nontrivial": nt, "key": key})
+        if common.TIMEOUTS[0] >= 3:
+            # the implementation stopped terminating: report what was found so far instead of waiting out every case
+            if not any(c["oracle"] for c in cases):
+                cases[-1]["oracle"] = {"why": "a call of the implementation did not terminate (3 time-outs); last input shown", "cls": "nontermination"}
+            break
     # automatic summary of what was generated and what came back (kinds of cases, options, result kinds, sizes)
     for cs in cases:
         inp = cs["input"] if isinstance(cs["input"], dict) else {}
